@@ -41,10 +41,27 @@ _classes = {}
 
 
 _FALSY = [None]        # set per case: the owner class defines __len__ -> 0 / __bool__ -> False
+_ITEMS = [True]        # set per case: the container traits are declared with items=False (no <name>_items event)
+_List, _Set, _Dict = List, Set, Dict
+
+
+def List(*a, **k):  # noqa: F811
+    k.setdefault("items", _ITEMS[0])
+    return _List(*a, **k)
+
+
+def Set(*a, **k):  # noqa: F811
+    k.setdefault("items", _ITEMS[0])
+    return _Set(*a, **k)
+
+
+def Dict(*a, **k):  # noqa: F811
+    k.setdefault("items", _ITEMS[0])
+    return _Dict(*a, **k)
 
 
 def cls_for(key, make):
-    key = (key, _FALSY[0])
+    key = (key, _FALSY[0], _ITEMS[0])
     if "VInst" in repr(key):
         # a forward reference Instance("Cell") is resolved (and the trait fixed up) at the first validation: every case
         # gets its own class, so that its first assignment is that first validation
@@ -684,6 +701,7 @@ def main():
     def one(c):
         L.reset_pool()
         _FALSY[0] = c.get("falsy")
+        _ITEMS[0] = not c.get("no_items")
         return fn[c["kind"]](c)
     if isinstance(p, list):              # vlib.hist passes the bare list of cases; each names its kind
         dlib.dump([one(c) for c in p])
